@@ -451,12 +451,55 @@ def r7b_i32max(t):
     return _apply_all(t, f)
 
 
+def _bytes_of_bstr(body):
+    """bytes denoted by the inside of a Rust byte-string literal b"..." (no raw strings)."""
+    out, i = [], 0
+    while i < len(body):
+        c = body[i]
+        if c != '\\':
+            if ord(c) > 127:
+                raise LiftError("R11: non-ASCII character in byte string literal")
+            out.append(ord(c))
+            i += 1
+            continue
+        e = body[i + 1]
+        if e == 'x':
+            out.append(int(body[i + 2:i + 4], 16))
+            i += 4
+        elif e in 'nrt\\0\'"':
+            out.append({'n': 10, 'r': 13, 't': 9, '\\': 92, '0': 0, "'": 39, '"': 34}[e])
+            i += 2
+        else:
+            raise LiftError("R11: unsupported escape \\%s in byte string literal" % e)
+    return out
+
+
+def r11_bstr(t):
+    """R11: byte-string literal b"..." -> the array literal of the same bytes, &[b0u8, b1u8, ...] (same type &'static [u8; N],
+    same value; Verus has no view for byte-string literals but knows array literals)."""
+    def f(t):
+        i = 0
+        while i < len(t.s):
+            if t.k[i] == LIT and t.s[i] == 'b' and t.s.startswith('b"', i) and (i == 0 or t.k[i - 1] != LIT):
+                j = i + 2
+                while t.s[j] != '"':
+                    j += 2 if t.s[j] == '\\' else 1
+                bs = _bytes_of_bstr(t.s[i + 2:j])
+                if not bs:
+                    raise LiftError("R11: empty byte string literal")
+                # keep_origin: the replacement stands for source text (diagnostics map back to the source line)
+                return (i, j + 1, '&[' + ', '.join('%du8' % b for b in bs) + ']', True)
+            i += 1
+    return _apply_all(t, f)
+
+
 RULES = {
+    'R11': r11_bstr,
     'R2': r2_await, 'R3': r3_log, 'R4': r4_lock, 'R4b': r4b_drop_guard, 'R5': r5_flow,
     'R6': r6_block_on, 'R7': r7_asserts, 'R7b': r7b_i32max,
 }
 DEFAULT_RULES = ['R6', 'R2', 'R3', 'R7', 'R7b']
-RULE_ORDER = ['R6', 'R2', 'R3', 'R4', 'R4b', 'R5', 'R7', 'R7b']
+RULE_ORDER = ['R6', 'R2', 'R3', 'R4', 'R4b', 'R5', 'R7', 'R7b', 'R11']
 
 
 # --------------------------------------------------------------------------
